@@ -996,7 +996,8 @@ class K:
 
 SCENARIO_KINDS = ['shadow', 'shadow', 'shadow', 'unwind', 'unwind', 'nested_def', 'nested_def', 'loop_in_loop',
                        'arg_alias', 'arg_alias', 'paramless_local', 'paramless_local', 'computed_sources', 'late_macro', 'self_bound',
-                       'single_item_range', 'none_param', 'later_param_shadows', 'raw_cycle', 'blockless_routine']
+                       'single_item_range', 'none_param', 'later_param_shadows', 'raw_cycle', 'blockless_routine',
+                       'raw_power', 'odd_counts', 'param_like_macro', 'called_sources']
 
 
 def scenario(rng, world, kind=None):
@@ -1141,6 +1142,66 @@ def scenario(rng, world, kind=None):
         items.append(loop_a)
         items.append(K.call('turn', []))
         items.append(K.pr(K.lit(999)))
+    elif kind == 'raw_power':
+        # on / off of a group, a location, a light and all lights while raw units are in force and a duration is set: the
+        # duration is sent as it is (milliseconds), as `set` sends it; and again after the switch back (C01g_2)
+        grp = world[0][1] if world else 'g1'
+        loc = world[0][2] if world else 'l1'
+        name = world[0][0] if world else 'no such'
+        tg = lambda k, n: '(Target %s (NStr %s))' % (k, coq_str(n))
+        power = lambda on, txt, ops: ('%s %s' % ('on' if on else 'off', txt), '(%s (OpList [%s]))' % ('SOn' if on else 'SOff', '; '.join(ops)))
+        items.append(('units raw', '(SUnits UM_RAW)'))
+        items.append(K.reg('duration', K.lit(rng.choice([1500, 250, 4000]))))
+        items.append(power(True, 'group "%s"' % grp, [tg('TGroup', grp)]))
+        items.append(power(False, 'location "%s"' % loc, [tg('TLocation', loc)]))
+        items.append(power(True, '"%s" and group "%s"' % (name, grp), [tg('TLight', name), tg('TGroup', grp)]))
+        items.append(('off all', '(SOff OpAll)'))
+        items.append(('set group "%s"' % grp, '(SSet (OpList [%s]))' % tg('TGroup', grp)))
+        items.append(('units logical', '(SUnits UM_LOGICAL)'))
+        items.append(power(True, 'group "%s"' % grp, [tg('TGroup', grp)]))
+        items.append(K.reg('duration', K.lit(2.5)))
+        items.append(power(False, 'location "%s" and "%s"' % (loc, name), [tg('TLocation', loc), tg('TLight', name)]))
+    elif kind == 'odd_counts':
+        # counts that never meet zero exactly on the way down: a fraction, a negative number, bounds a fraction apart (C01g_1)
+        b1 = [K.pr(K.var('q')), K.assign('q', K.expr('q + 1', '(EBin BAdd (EVar "q") (ELit (LInt 1)))'))]
+        items.append(K.assign('q', K.lit(0)))
+        items.append(K.rep_count(K.lit(2.5), b1))
+        items.append(K.assign('want', K.lit(2)))
+        items.append(K.assign('have', K.lit(5)))
+        items.append(K.rep_count(K.expr('want - have', '(EBin BSub (EVar "want") (EVar "have"))'), b1))
+        items.append(K.rep_count(K.expr('have / 2', '(EBin BDiv (EVar "have") (ELit (LInt 2)))'), b1))
+        items.append(K.rep_range('i', K.lit(0), K.lit(1.5), [K.pr(K.var('i'))]))
+        items.append(K.rep_range('i', K.lit(2), K.lit(0.5), [K.pr(K.var('i'))]))
+        items.append(K.pr(K.var('q')))
+    elif kind == 'param_like_macro':
+        # a parameter named like a constant defined before: inside the routine it is the parameter, outside the name stays
+        # the constant -- also as the argument of the call itself (C03g_1)
+        m = rng.choice(['level', 'lamp_k', 'n'])
+        v = rng.choice([40, 7, 2.5])
+        mac = lambda: (m, '(RMacro %s)' % coq_str(m))
+        items.append(('define %s %s' % (m, txt_num(v)), '(SDefineMacro %s (MLit %s))' % (coq_str(m), coq_lit(v))))
+        items.append(K.define('dim', ['x', m], [K.pr(K.var(m)), K.assign(m, K.expr('%s + 1' % m, '(EBin BAdd (EVar %s) (ELit (LInt 1)))' % coq_str(m))), K.pr(K.var(m)), K.pr(K.var('x'))]))
+        items.append(K.call('dim', [K.lit(1), mac()]))
+        items.append(K.pr(mac()))
+        items.append(K.reg('hue', mac()))
+        items.append(K.call('dim', [mac(), K.lit(9)]))
+        items.append(K.pr(mac()))
+    elif kind == 'called_sources':
+        # the name of a group / location in a light list comes from a routine that itself commands lights and loops over them:
+        # whatever the call leaves in the operand register, the members listed are those of the group it names (C04g_1)
+        grp = world[0][1] if world else 'g1'
+        loc = world[0][2] if world else 'l1'
+        name = world[0][0] if world else 'no such'
+        items.append(K.define('pick_g', [], [('on "%s"' % name, '(SOn (OpList [(Target TLight (NStr %s))]))' % coq_str(name)),
+                                             K.rep_all('z', [K.pr(K.var('z'))]), K.ret(K.lit_s(grp))]))
+        items.append(K.define('pick_l', [], [('off location "%s"' % loc, '(SOff (OpList [(Target TLocation (NStr %s))]))' % coq_str(loc)), K.ret(K.lit_s(loc))]))
+        b = K.block([K.pr(K.var('l'))])
+        items.append(('repeat in group [pick_g] as l %s' % b[0], '(SRepeat (LIn [SrcGroup (RCall "pick_g" [])] "l" None) %s)' % b[1]))
+        items.append(('repeat in location [pick_l] and "%s" and group [pick_g] as l %s' % (name, b[0]),
+                      '(SRepeat (LIn [SrcLocation (RCall "pick_l" []); SrcLight (RLit (LStr %s)); SrcGroup (RCall "pick_g" [])] "l" None) %s)' % (coq_str(name), b[1])))
+        b2 = K.block([K.pr(K.var('l')), K.pr(K.var('v'))])
+        items.append(('repeat in group [pick_g] as l with v from 0 to 100 %s' % b2[0],
+                      '(SRepeat (LIn [SrcGroup (RCall "pick_g" [])] "l" (Some (WRange "v" (RLit (LInt 0)) (RLit (LInt 100))))) %s)' % b2[1]))
     elif kind == 'single_item_range':
         # a light loop with an interpolated variable over exactly one item (increment 0, nothing divided): the item is
         # still the light's name, and nothing is left behind when the loop ends; the same for a count of one
